@@ -4,7 +4,7 @@ from harness.common import Raw, cq
 
 PID = "C05"
 PARALLEL = 12
-IMPORTS = "From Verif Require Import C05.Model C05.Spec C05.Corr."
+IMPORTS = "From Verif Require Import C05.Model C05.Spec C05.Time C05.Corr."
 CASE_TYPE = "C05.Corr.case"
 RUNNER = "C05.Corr.run"
 FINDING_CLASSES = {}
@@ -109,7 +109,87 @@ def generate(ctx):
         if offs["issue"] is None:
             offs["issue"] = 0
         cases.append(mk(offs, skew, rng.choice([None, None, "5", "123456"]), "random"))
+    cases += text_cases(ctx)
     return cases
+
+
+# ---------------------------------------------------------------------------- time-stamp TEXT cases (C05/Time.v)
+Y10K = 253402300800
+
+
+def _fmt(y, mo, d, h, mi, s):
+    return "%04d-%02d-%02dT%02d:%02d:%02dZ" % (y, mo, d, h, mi, s)
+
+
+def _variants(rng, base):
+    """Syntactic variants of one canonical text 'YYYY-MM-DDTHH:MM:SSZ'."""
+    core = base[:-1]
+    y, mo, d = core[0:4], core[5:7], core[8:10]
+    h, mi, sec = core[11:13], core[14:16], core[17:19]
+    short = lambda x: x.lstrip("0") or "0"  # noqa: E731
+    out = [base, core, core.lower() + "z", core + "z", base.replace("T", "t"),
+           core + ".5Z", core + ".Z", core + ".123456", core + ".000Z", core + ".5z", core + ".5.5Z",
+           base + "\n", core + "\n", base + " ", " " + base, base + "Z", core + "+00:00", core + "-01:00",
+           "%s-%s-%sT%s:%s:%sZ" % (y, short(mo), short(d), short(h), short(mi), short(sec)),
+           "%s-%s-%sT%s:%s:%sZ" % (y, short(mo), d, h, mi, sec),
+           "%s-%s-%sT%s:%s:%sZ" % (y, mo, short(d), h, mi, sec),
+           "%s-%s-%sT%s:%s:%sZ" % (y, mo, d, short(h), mi, sec),
+           "%s-%s-%sT%s:%s:%sZ" % (y, mo, d, h, short(mi), sec),
+           "%s-%s-%sT%s:%s:%sZ" % (y, mo, d, h, mi, short(sec)),
+           "%s-%s-%sT%s:%s:%s.5Z" % (y, mo, short(d), h, mi, sec),
+           "%s-%s- %sT%s:%s:%sZ" % (y, mo, short(d)[-1:], h, mi, sec),
+           "%s-%s-%s %s:%s:%sZ" % (y, mo, d, h, mi, sec),
+           "0" + base, base[1:], base.replace("-", "/", 1), base.replace(":", ".", 1),
+           "%s-%s-%sT%s:%s:60Z" % (y, mo, d, h, mi), "%s-%s-%sT%s:%s:61Z" % (y, mo, d, h, mi),
+           "%s-%s-%sT%s:%s:62Z" % (y, mo, d, h, mi), "%s-%s-%sT24:%s:%sZ" % (y, mo, d, mi, sec),
+           "%s-%s-%sT%s:60:%sZ" % (y, mo, d, h, sec), "%s-13-%sT%s:%s:%sZ" % (y, d, h, mi, sec),
+           "%s-00-%sT%s:%s:%sZ" % (y, d, h, mi, sec), "%s-%s-00T%s:%s:%sZ" % (y, mo, h, mi, sec),
+           "%s-%s-32T%s:%s:%sZ" % (y, mo, h, mi, sec), "%s-%s-31T%s:%s:%sZ" % (y, mo, h, mi, sec),
+           "%s-%s-30T%s:%s:%sZ" % (y, mo, h, mi, sec), "%s-%s-29T%s:%s:%sZ" % (y, mo, h, mi, sec),
+           "%s-02-29T%s:%s:%sZ" % (y, h, mi, sec), "%s-02-30T%s:%s:%sZ" % (y, h, mi, sec),
+           "0000-%s-%sT%s:%s:%sZ" % (mo, d, h, mi, sec), "%s-%s-%sT%s:%s:%s" % (y, mo, d, h, mi, sec[:1]),
+           base.replace(base[rng.randrange(len(base))], rng.choice("x-:TZ. 07"), 1)]
+    return out
+
+
+def text_cases(ctx):
+    rng = ctx.rng
+    stamps = [0, 1, 59, 60, 61, 3599, 3600, 86399, 86400, 86401, 951782400, 951868799, 951868800,  # 2000-02-29
+              1709164800, 1709251199, 1709251200, 1735689599, 1735689600, 4107542400, NOW, NOW - 1, NOW + 1,
+              Y10K - 1, Y10K - 86400, 978307199, 978307200, 68169599, 68169600]
+    for _ in range(400 if ctx.thorough else 40):
+        stamps.append(rng.randrange(0, Y10K))
+    for _ in range(200 if ctx.thorough else 30):
+        stamps.append(rng.randrange(0, 4102444800))
+    texts = []
+    for ts in stamps:
+        base = env.iso(ts)
+        texts += _variants(rng, base) if (ctx.thorough or rng.random() < 0.5 or ts < 100000) else [base, base[:-1] + ".25Z"]
+    # dates before the epoch and arbitrary field combinations (also impossible ones)
+    for _ in range(600 if ctx.thorough else 150):
+        y = rng.choice([1, 2, 99, 100, 400, 1582, 1600, 1899, 1900, 1904, 1969, 1970, 2000, 2023, 2024, 2100, 9999,
+                        rng.randrange(1, 10000)])
+        mo, d = rng.randrange(0, 14), rng.randrange(0, 33)
+        h, mi, sec = rng.randrange(0, 26), rng.randrange(0, 62), rng.randrange(0, 64)
+        if rng.random() < 0.7:
+            mo, d = max(1, min(12, mo)), max(1, min(31, d))
+        if rng.random() < 0.7:
+            h, mi, sec = min(23, h), min(59, mi), min(59, sec)
+        b = _fmt(y, mo, d, h, mi, sec)
+        texts.append(b)
+        if rng.random() < 0.3:
+            texts.append(rng.choice(_variants(rng, b)))
+    texts += ["", "Z", "T", "now", "2020", "2020-01-01", "2020-01-01T", "2020-01-01T00:00", "20200101T000000Z",
+              "2020-01-01T00:00:00,5Z", "2020-01-01T00:00:00.Z\n", "\n", "2020-01-01T00:00:00\n\n", "99999-01-01T00:00:00Z",
+              "2020-1-1T0:0:0", "2020-1-1T0:0:0.5Z", "2020-01-01T00:00:00.5ZZ", "2020-01-01T00:00:00ZZ", "-2020-01-01T00:00:00Z",
+              "+2020-01-01T00:00:00Z", "2020-01-01T00:00:00Z\t", "2020-01-01T00:00: 0Z", "2020-01-01T 0:00:00Z",
+              "2020- 1-01T00:00:00Z", "2020-01- 0T00:00:00Z", "2020-01-  1T00:00:00Z"]
+    seen, out = set(), []
+    for t in texts:
+        if t not in seen and all(ord(c) < 128 for c in t):
+            seen.add(t)
+            out.append({"text": t, "tag": "text"})
+    return out
 
 
 def stamp(case, f):
@@ -119,7 +199,19 @@ def stamp(case, f):
     return env.iso(NOW + o, case["frac"])
 
 
+def observe_text(case):
+    import calendar
+
+    from saml2 import time_util
+    try:
+        return {"secs": int(calendar.timegm(time_util.str_to_time(case["text"]))), "exc": None}
+    except Exception as e:  # the exception class is the observation
+        return {"secs": None, "exc": type(e).__name__}
+
+
 def observe(case):
+    if "text" in case:
+        return observe_text(case)
     over = {}
     if case["skew"] is not None:
         over["accepted_time_diff"] = case["skew"]
@@ -154,7 +246,13 @@ def cq_stamp(case, f):
     return "(Some (%s, %s))" % (cq(NOW + o), cq(bool(case["frac"])))
 
 
+TEXT_EXC = {"ValueError": "TValueError", "AttributeError": "TAttributeError", "TypeError": "TEmpty"}
+
+
 def coq_case(case, obs):
+    if "text" in case:
+        r = "(TVal %s)" % cq(obs["secs"]) if obs["exc"] is None else TEXT_EXC.get(obs["exc"], "TOther")
+        return "C05.Corr.CTime %s %s" % (cq(case["text"]), r)
     if obs["identity"]:
         n = obs["nooa"]
         v = "(Accept %s)" % cq(int(n) if isinstance(n, int) else -1)
@@ -168,6 +266,8 @@ def coq_case(case, obs):
 
 
 def nontrivial(case, obs):
+    if "text" in case:
+        return ("text", case["text"])
     moved = tuple((f, case[f]) for f in FIELDS if case[f] != BASE[f])
     if not moved:
         return None
@@ -176,8 +276,13 @@ def nontrivial(case, obs):
 
 def histogram(cases, observed):
     h = {"by_tag": {}, "accepted": 0, "rejected": 0, "exceptions": {}}
+    h["text_results"] = {}
     for c, o in zip(cases, observed):
         h["by_tag"][c["tag"]] = h["by_tag"].get(c["tag"], 0) + 1
+        if "text" in c:
+            k = o["exc"] or "value"
+            h["text_results"][k] = h["text_results"].get(k, 0) + 1
+            continue
         h["accepted" if o["identity"] else "rejected"] += 1
         if o["exc"]:
             h["exceptions"][o["exc"]] = h["exceptions"].get(o["exc"], 0) + 1
